@@ -688,4 +688,21 @@ theorem printedOf_iff_cand (r : Run) (hs : r.o.safety = false) (hk : keyCoherent
       · simp [Emit.internal, hpl.1]
 
 
+theorem status_eq_of_rv1 {r r' : Run} (ho : r'.o = r.o) (hg : r'.unmatchedGate = r.unmatchedGate) (hu : unmatchedErr r' = unmatchedErr r)
+    (hc : hasCritical r' = hasCritical r) (h : (rv1 r' = rv1 r) ∨ (rv1 r' ≠ 0 ∧ rv1 r ≠ 0)) : exitStatus r' = exitStatus r := by
+  unfold exitStatus mainReturn
+  rw [ho, hc]
+  have : (rv2 r' != 0) = (rv2 r != 0) := by
+    unfold rv2
+    rw [ho, hg, hu]
+    rcases h with h | ⟨h1, h2⟩
+    · rw [h]
+    · have a : (rv1 r' == 0) = false := by simpa using h1
+      have b : (rv1 r == 0) = false := by simpa using h2
+      have c : (rv1 r' != 0) = true := by simpa using h1
+      have d : (rv1 r != 0) = true := by simpa using h2
+      simp [a, b, c, d]
+  rw [this]
+
+
 end Cppcheck.ExitCode
